@@ -734,6 +734,8 @@ class EncodingParser(object):
 
     def handleComment(self):
         """Skip over comments"""
+        # the two dashes of "<!--" may also be those of the closing "-->"
+        self.data.position -= 2
         return self.data.jumpTo(b"-->")
 
     def handleMeta(self):
